@@ -1,17 +1,29 @@
 #!/bin/sh
-# tools/seedall.sh [jobs] : regression over every seeded change, on a scratch worktree of /repo (PYVC_REPO), results in out/seedall.txt
-# (the registered checks always read /repo; this development tool points the same machinery at a patched copy)
+# tools/seedall.sh [lanes] [jobs] : regression over every seeded change on scratch worktrees of /repo (PYVC_REPO), `lanes` seeds at a time;
+# results in out/seedall.txt (the registered checks always read /repo; this development tool points the same machinery at patched copies)
 cd "$(dirname "$0")/.." || exit 3
-jobs=${1:-8}
-wt=/tmp/seedrepo
-git -C /repo worktree remove --force $wt 2>/dev/null
-git -C /repo worktree add -f $wt HEAD -q || exit 3
+lanes=${1:-4}; jobs=${2:-4}
 mkdir -p out; : > out/seedall.txt
+i=0
 for d in seeded/*/; do
   s=$(basename $d); pid=${s%-*}
   [ "$pid" = "C11" ] && { echo "$s not-applicable" >> out/seedall.txt; continue; }
-  git -C $wt checkout -q -- . ; git -C $wt apply "$(pwd)/$d/patch.diff" || { echo "$s APPLY-FAIL" >> out/seedall.txt; continue; }
-  line=$(PYVC_REPO=$wt PYVC_SCRATCH_EVIDENCE=1 timeout 2400 ./check $pid --jobs $jobs 2>&1 | grep -E "tier=" | tail -1)
-  echo "$s $line" >> out/seedall.txt
+  i=$((i+1)); lane=$((i % lanes))
+  echo "$s $pid" >> out/.lane$lane
 done
-git -C $wt checkout -q -- . ; git -C /repo worktree remove --force $wt
+for lane in $(seq 0 $((lanes-1))); do
+  (
+    wt=/tmp/seedrepo$lane
+    git -C /repo worktree remove --force $wt 2>/dev/null
+    git -C /repo worktree add -f $wt HEAD -q || exit 3
+    while read s pid; do
+      git -C $wt checkout -q -- . ; git -C $wt apply "$(pwd)/seeded/$s/patch.diff" || { echo "$s APPLY-FAIL" >> out/seedall.txt; continue; }
+      line=$(PYVC_REPO=$wt PYVC_SCRATCH_EVIDENCE=1 PYVC_REPLAY_DIR=replays_seed$lane timeout 3000 ./check $pid --jobs $jobs 2>&1 | grep -E "tier=" | tail -1)
+      echo "$s $line" >> out/seedall.txt
+    done < out/.lane$lane
+    git -C $wt checkout -q -- . ; git -C /repo worktree remove --force $wt
+    rm -f out/.lane$lane
+  ) &
+done
+wait
+sort -o out/seedall.txt out/seedall.txt
